@@ -567,6 +567,9 @@ class Evaluator:
         if s.get("k") == "let":
             v = self.ev(s["init"], env)
             if not self.bind(s["pat"], v, env):
+                if isinstance(s.get("els"), dict):
+                    self.ev(s["els"], env)           # `let PAT = v else { diverges }`
+                    raise Unrecognised("the else block of a let-else does not diverge")
                 raise Unrecognised("refutable let")
             return
         self.ev(s, env)
